@@ -214,7 +214,17 @@ type c13 struct {
 		faults     int
 		maxOrders  int
 	}
-	nextDSeq uint64
+	nextDSeq  uint64
+	secondBid string
+}
+
+// groupMaxPrice: the order's maximum price, computed independently of GroupSpec.Price().
+func groupMaxPrice(gs dtypes.GroupSpec) sdk.Coin {
+	total := sdk.ZeroInt()
+	for _, res := range gs.Resources {
+		total = total.Add(res.Price.Amount.MulRaw(int64(res.Count)))
+	}
+	return sdk.NewCoin(gs.Resources[0].Price.Denom, total)
 }
 
 var errOrderGone = errors.New("rpc error: code = Unknown desc = order not open")
@@ -261,6 +271,10 @@ func (x *c13) respond(c *Call) (interface{}, error) {
 				return nil, errOrderGone
 			}
 			if o.BidOnChain {
+				// the provider (this or an earlier incarnation of it) already has a bid on this order
+				if x.secondBid == "" {
+					x.secondBid = fmt.Sprintf("create-bid for %s broadcast at step %d by incarnation %d while the provider's bid (%s) was on chain", mquery.OrderPath(msg.Order), c.Start, c.Inc, o.BidPrice)
+				}
 				return nil, errors.New("rpc error: invalid bid: bid exists for provider")
 			}
 			o.BidOnChain = true
@@ -278,7 +292,7 @@ func (x *c13) respond(c *Call) (interface{}, error) {
 		return nil, nil
 	case "Pricing.CalculatePrice":
 		gs := c.Args.(*dtypes.GroupSpec)
-		max := gs.Price().Amount.Int64()
+		max := groupMaxPrice(*gs).Amount.Int64()
 		switch r.Weighted([]int{5, 2, 2, 2}, "price") {
 		case 0:
 			return sdk.NewInt64Coin("uakt", max), nil
@@ -394,7 +408,7 @@ func runC13(r *core.Run) *core.Violation {
 	// some runs start with orders (and possibly our bid) already on chain: catch-up path
 	if r.Bool(30, "knob.preexisting") {
 		o := x.newOrder()
-		if r.Bool(50, "knob.preexisting.bid") {
+		if r.Bool(65, "knob.preexisting.bid") {
 			o.BidOnChain = true
 			o.BidPrice = o.Group.GroupSpec.Price()
 		}
@@ -429,6 +443,11 @@ func (x *c13) newOrder() *mOrder {
 	dseqs := []uint64{1, 12, 256}
 	id := mtypes.OrderID{Owner: x.m.tenant.String(), DSeq: dseqs[(int(x.nextDSeq)-1)%len(dseqs)], GSeq: 1, OSeq: 1}
 	gs := simpleGroupSpec(fmt.Sprintf("g%d", x.nextDSeq), int64(1+r.Choose(50, "order.price")), uint32(1+r.Choose(2, "order.count")))
+	if r.Bool(35, "order.second-entry") {
+		// a second resource entry with its own unit price and replica count
+		e2 := simpleGroupSpec("", int64(1+r.Choose(20, "order.price2")), uint32(1+r.Choose(3, "order.count2"))).Resources[0]
+		gs.Resources = append(gs.Resources, e2)
+	}
 	switch r.Weighted([]int{6, 2, 2}, "order.req") {
 	case 1:
 		gs.Requirements.Attributes = atypes.Attributes{{Key: "region", Value: "eu"}} // provider cannot serve
@@ -465,7 +484,11 @@ func (x *c13) step() (bool, *core.Violation) {
 			return false, nil
 		}})
 		if x.cfg.faults > 0 {
-			st = append(st, stim{"fail " + c.Key, 3, func() (bool, *core.Violation) {
+			fw := 3
+			if c.Method == "Query.Bid" {
+				fw = 9 // the existing-bid lookup of a catch-up order is issued once per order and incarnation
+			}
+			st = append(st, stim{"fail " + c.Key, fw, func() (bool, *core.Violation) {
 				x.cfg.faults--
 				x.s.Complete(c, ErrInjected)
 				r.Count("fault:fail-" + c.Method)
@@ -654,6 +677,9 @@ func (x *c13) crashRestart() *core.Violation {
 // checkSafety: clauses that must hold at every point of every schedule.
 func (x *c13) checkSafety() *core.Violation {
 	r := x.r
+	if x.secondBid != "" {
+		return r.Flag("C13/second-bid-same-order", "%s", x.secondBid)
+	}
 	perOrder := map[string][]*Call{}
 	for _, c := range x.s.CallsWhere(func(c *Call) bool { _, ok := c.Args.(*mtypes.MsgCreateBid); return ok }) {
 		msg := c.Args.(*mtypes.MsgCreateBid)
@@ -663,7 +689,7 @@ func (x *c13) checkSafety() *core.Violation {
 		if o == nil {
 			return r.Flag("C13/bid-for-unknown-order", "bid broadcast for an order that never existed: %s", c)
 		}
-		if max := o.Group.GroupSpec.Price(); max.IsLT(msg.Price) {
+		if max := groupMaxPrice(o.Group.GroupSpec); max.IsLT(msg.Price) {
 			return r.Flag("C13/bid-above-max-price", "bid %s for order %s exceeds the maximum %s", msg.Price, mquery.OrderPath(msg.Order), max)
 		}
 		// only after resources were reserved
